@@ -156,19 +156,21 @@ theorem HRun.safe (d : Bool) {h : Host} {c : Int} {evs : List Ev} {h' : Host} {c
       rw [hstep]
       cases d <;> simp only [Bool.false_eq_true, if_false, if_true, List.append_assoc] at had ⊢ <;> exact had
 
-/-- record `x` is withdrawn from queue `d` by a block of the trace (`async_remove_answers` naming it: its service was unregistered) -/
-def withdrawnInTrace (d : Bool) (tr : List (Ev × StepOut)) (x : RecId) : Prop :=
-  ∃ p ∈ tr, ∃ s recs, p.1 = .qremove s d recs ∧ x ∈ recs
+/-- record `x` is withdrawn from queue `d` by a block of the trace (`async_remove_answers` naming it: its service was unregistered)
+**no later than `D`** -/
+def withdrawnInTrace (d : Bool) (tr : List (Ev × StepOut)) (x : RecId) (D : Int) : Prop :=
+  ∃ p ∈ tr, ∃ s recs, p.1 = .qremove s d recs ∧ x ∈ recs ∧ s ≤ D
 
 /-- **liveness over host runs**: a record queued in queue `d` is multicast by that queue's timer callback before its group's
-deadline, or is still queued at the end of the run, or was withdrawn by an `async_remove_answers` block of the run -/
+deadline, or is still queued at the end of the run, or was withdrawn by an `async_remove_answers` block of the run that ran no later
+than that deadline (while the record's group was still waiting) -/
 theorem HRun.live (d : Bool) {h : Host} {c : Int} {evs : List Ev} {h' : Host} {c' : Int} {tr : List (Ev × StepOut)}
     (hr : HRun h c evs h' c' tr) :
     ∀ hO hD, HInv hO hD c h → ∀ (x : RecId) (D : Int),
       (∃ g ∈ (h.q d).groups, x ∈ g.answers.keys ∧ g.born + (qpOf d).agg + (qpOf d).addl ≤ D) →
       (∃ p ∈ tr, ∃ s b, p.1 = .qfire s d ∧ Out.ofMcast b ∈ p.2.outs ∧ x ∈ b.keys ∧ s ≤ D) ∨
       (∃ g ∈ (h'.q d).groups, x ∈ g.answers.keys ∧ g.born + (qpOf d).agg + (qpOf d).addl ≤ D) ∨
-      withdrawnInTrace d tr x := by
+      withdrawnInTrace d tr x D := by
   induction hr with
   | nil h c => intro hO hD _ x D hq; exact Or.inr (Or.inl hq)
   | @cons h clock e es r h' c' tr hax hs _ ih =>
@@ -178,7 +180,7 @@ theorem HRun.live (d : Bool) {h : Host} {c : Int} {evs : List Ev} {h' : Host} {c
     have cont : (∃ g ∈ (r.host.q d).groups, x ∈ g.answers.keys ∧ g.born + (qpOf d).agg + (qpOf d).addl ≤ D) →
         (∃ p ∈ (e, r) :: tr, ∃ s b, p.1 = .qfire s d ∧ Out.ofMcast b ∈ p.2.outs ∧ x ∈ b.keys ∧ s ≤ D) ∨
         (∃ g ∈ (h'.q d).groups, x ∈ g.answers.keys ∧ g.born + (qpOf d).agg + (qpOf d).addl ≤ D) ∨
-        withdrawnInTrace d ((e, r) :: tr) x := by
+        withdrawnInTrace d ((e, r) :: tr) x D := by
       intro hq
       rcases ih _ _ hI' x D hq with ⟨p, hp, rest⟩ | hfin | ⟨p, hp, rest⟩
       · exact Or.inl ⟨p, List.mem_cons_of_mem _ hp, rest⟩
@@ -187,7 +189,22 @@ theorem HRun.live (d : Bool) {h : Host} {c : Int} {evs : List Ev} {h' : Host} {c
     rcases step_queue_effect d hd hperf with ⟨heq, _⟩ | ⟨cc, now, dr, ans, heq, _⟩ | ⟨s, hes, heq, houts⟩ | ⟨s, recs, hes, heq⟩
     rotate_right
     · by_cases hrm : x ∈ recs
-      · exact Or.inr (Or.inr ⟨(e, r), List.mem_cons_self, s, recs, hes, hrm⟩)
+      · -- the block runs no later than the queue's armed timer, which is due no later than the group's deadline
+        have hsD : s ≤ D := by
+          have hq := hI.q d
+          have hne : (h.q d).groups.map Group.sk ≠ [] := by
+            intro hnil; rw [List.map_eq_nil_iff] at hnil; rw [hnil] at hg; cases hg
+          obtain ⟨dd, hdd⟩ := hq.sk.nonempty_timer hne
+          have hle := (hq.sk.timer_le hdd g.sk (List.mem_map_of_mem hg)).1
+          obtain ⟨h1, h2, _⟩ := notOverdue_spec hax.noTimerPassed
+          have ht : e.time = s := by rw [hes]; rfl
+          have : e.time ≤ dd := by
+            cases d
+            · exact h1 dd (by simpa [Host.q] using hdd)
+            · exact h2 dd (by simpa [Host.q] using hdd)
+          simp only [Sk.deadline, Group.sk] at hle
+          omega
+        exact Or.inr (Or.inr ⟨(e, r), List.mem_cons_self, s, recs, hes, hrm, hsD⟩)
       · obtain ⟨g', hg', hx', hb⟩ := Queue.remove_keeps (h.q d) recs hg hx hrm
         exact cont ⟨g', by rw [heq]; exact hg', hx', by rw [hb]; exact hD'⟩
     · exact cont ⟨g, by rw [heq]; exact hg, hx, hD'⟩
